@@ -90,6 +90,12 @@ RT_TECH = ('TLA+ spec of the format fragment and of what a cycle must keep (FMFo
                   'every model of the fragment up to the family bounds; Write/Read histories replayed through the real writer and reader; '
                   'recorded events judged by trace validation')
 CHECKS.update({
+    'C01': dict(technique=RT_TECH, design_ref='DESIGN.md section 8 (C01)',
+        text='Every model of the UVL fragment up to the bounds: all relation kinds incl. [a..b] and [a..*], typed features, feature cardinalities, '
+             'abstract flags, attribute values None/bool/int/float/str/list/nested map, logical constraints (depth 1 over the model, depth 2 over two '
+             'names), comparison/arithmetic/aggregate constraints; plain naming plus one naming per admissible character class (spaces, punctuation, '
+             'UVL keywords, operator words, leading digit, leading underscore, non-ASCII): k write/read cycles judged by TLC with the same clauses as '
+             'the other formats (what is kept; exact fixpoint from the second cycle on; byte-identical text).'),
     'C05': dict(technique=RT_TECH, design_ref='DESIGN.md section 8 (C01, C05-C08)',
         text='Every model of the JSON fragment up to the bounds (all tree shapes and relation kinds the format expresses, constraints of depth 1 over '
              'the model and every tree of depth 2 over two names, decorations) under the plain naming and one naming per admissible character class: '
